@@ -177,32 +177,34 @@ Print Assumptions C10_sftp_no_length_cap.
 
 (* ---- copy-data (sftp.py _process_copy_data) ---- *)
 
-(* source and destination are different files: the loop ends after at most available/block + 1 reads and
-   writes no more than the source holds behind the offset, whatever 64-bit length the peer asked for. *)
-Theorem C10_copy_distinct_terminates : forall fuel sz roff len woff,
+(* whatever 64-bit offsets and length the peer asks for, and whether or not both handles name the same file, the
+   request ends after at most available/block + 1 reads and writes no more than the source holds behind the
+   offset (the same file: refused at once, nothing read or written). *)
+Theorem C10_copy_terminates : forall fuel same sz roff len woff,
   0 <= len -> Z.max 0 (sz - roff) / COPY_BLOCK + 1 < Z.of_nat fuel ->
-  exists it w, copy_data fuel false sz roff len woff = CDone it w /\
+  exists it w, copy_data fuel same sz roff len woff = CDone it w /\
                0 <= it <= Z.max 0 (sz - roff) / COPY_BLOCK + 1 /\ 0 <= w <= Z.max 0 (sz - roff).
 Proof.
-  intros fuel sz roff len woff Hl Hf. unfold copy_data.
-  destruct (copy_loop_distinct fuel sz roff len woff (len =? 0) 0 0 (fun _ => Hl) Hf) as (it & w & H & Hi & Hw).
-  exists it, w. split; [exact H|lia].
+  intros fuel same sz roff len woff Hl Hf. unfold copy_data. destruct same.
+  - exists 0, 0. split; [reflexivity|]. unfold COPY_BLOCK. lia.
+  - destruct (copy_loop_distinct fuel sz roff len woff (len =? 0) 0 0 (fun _ => Hl) Hf) as (it & w & H & Hi & Hw).
+    exists it, w. split; [exact H|lia].
 Qed.
-Print Assumptions C10_copy_distinct_terminates.
+Print Assumptions C10_copy_terminates.
 
-(* REFUTED on the code as it is: "the copy loop terminates".  Source and destination the same file of at
-   least one block, read-to-end (length 0), write offset one block or more ahead: every iteration reads a
-   full block that the previous iteration wrote; out of fuel for EVERY fuel, one more block written each
-   time (until the disk is full), and the loop contains no await when the SFTPServer methods are the
+(* regression witness for the code before COMMIT_C10_1 (no same-file check): source and destination the same
+   file of at least one block, read-to-end (length 0), write offset one block or more ahead: every iteration
+   reads a full block that the previous iteration wrote; out of fuel for EVERY fuel, one more block written
+   each time (until the disk is full), and the loop contains no await when the SFTPServer methods are the
    synchronous defaults. *)
-Theorem C10_copy_same_file_refuted : forall fuel sz woff,
+Theorem C10_copy_same_file_regress : forall fuel sz woff,
   COPY_BLOCK <= sz -> COPY_BLOCK <= woff ->
-  copy_data fuel true sz 0 0 woff = CFuel (COPY_BLOCK * Z.of_nat fuel).
+  copy_data_old fuel true sz 0 0 woff = CFuel (COPY_BLOCK * Z.of_nat fuel).
 Proof.
-  intros fuel sz woff H1 H2. unfold copy_data. change (0 =? 0) with true.
+  intros fuel sz woff H1 H2. unfold copy_data_old. change (0 =? 0) with true.
   rewrite copy_loop_same_spins by lia. f_equal.
 Qed.
-Print Assumptions C10_copy_same_file_refuted.
+Print Assumptions C10_copy_same_file_regress.
 
 (* ---- the clear-text receive loop (model owned by C02) ---- *)
 
@@ -250,4 +252,6 @@ Example ex_sftp : sftp_feed [0; 0; 0; 5; 1; 0; 0; 0; 3; 0; 0; 0; 1; 9]
   = Some ([(1, 3, [])], [], FBad, 2).
 Proof. vm_compute. reflexivity. Qed.
 Example ex_copy : copy_data 10 false 600000 0 0 0 = CDone 3 600000.
+Proof. vm_compute. reflexivity. Qed.
+Example ex_copy_same : copy_data 10 true 600000 0 0 262144 = CDone 0 0.
 Proof. vm_compute. reflexivity. Qed.
